@@ -47,6 +47,20 @@ pub fn targets() -> Vec<(Entry, Vec<u8>, u8)> {
         (Entry::McLegacySpecific(1), vec![0], 1),
         (Entry::McLegacySpecific(2), vec![0], 1),
         (Entry::Mindustry, vec![0], 1),
+        // the definition-driven dispatch of one table game per family (its first request): the retry count has to survive the glue
+        (Entry::Generic { game: "mindustry".into(), extra: None }, vec![0], 1),
+        (Entry::Generic { game: "q3a".into(), extra: None }, vec![0], 1),
+        (Entry::Generic { game: "quake1".into(), extra: None }, vec![0], 1),
+        (Entry::Generic { game: "battlefield1942".into(), extra: None }, vec![0], 1),
+        (Entry::Generic { game: "hce".into(), extra: None }, vec![0], 1),
+        (Entry::Generic { game: "crysiswars".into(), extra: None }, vec![0], 2),
+        (Entry::Generic { game: "jc2m".into(), extra: None }, vec![0], 2),
+        (Entry::Generic { game: "ffow".into(), extra: None }, vec![0], 2),
+        (Entry::Generic { game: "killingfloor".into(), extra: None }, vec![0], 1),
+        (Entry::Generic { game: "minecraftjava".into(), extra: None }, vec![0], 1),
+        (Entry::Generic { game: "minecraftbedrock".into(), extra: None }, vec![0], 1),
+        (Entry::Generic { game: "minecraftlegacy14".into(), extra: None }, vec![0], 1),
+        // (Savage 2 ignores the retry count by design of its single exchange: "every protocol that retries" excludes it)
     ]
 }
 
